@@ -132,11 +132,51 @@ func (l *Ledger) MergeViewRun(v *Ledger) (replaced, added int) {
 	}
 	mine, order := group(l.Obs)
 	theirs, vorder := group(v.Obs)
+	cnt := map[string]int{}
+	for _, o := range l.Obs {
+		cnt[o.Rule]++
+	}
+	short := map[string]bool{}
+	for _, f := range l.Floors {
+		if cnt[f.Rule] < f.Min {
+			short[f.Rule] = true
+		}
+	}
 	var out []*Obligation
 	for _, k := range order {
 		g := mine[k]
 		if !clean(g) {
 			if t := theirs[k]; clean(t) && len(t) >= len(g) {
+				for _, o := range t {
+					o.Detail += " [decided on the inlined view: calls to private helpers of the package expanded in place]"
+				}
+				out = append(out, t...)
+				replaced++
+				continue
+			}
+			// neither pass discharges the group: report the more specific of the two — a violation
+			// located on the inlined view rather than a "construct not found" on the function as written
+			hasViol := func(x []*Obligation) bool {
+				for _, o := range x {
+					if o.Status == Violated {
+						return true
+					}
+				}
+				return false
+			}
+			if t := theirs[k]; !hasViol(g) && hasViol(t) {
+				for _, o := range t {
+					if o.Status != Discharged {
+						o.Detail += " [located on the inlined view: calls to private helpers of the package expanded in place]"
+					}
+				}
+				out = append(out, t...)
+				continue
+			}
+		}
+		// the group is discharged but its rule is below its floor: the view may show the rest
+		if clean(g) && short[k.rule] {
+			if t := theirs[k]; clean(t) && len(t) > len(g) {
 				for _, o := range t {
 					o.Detail += " [decided on the inlined view: calls to private helpers of the package expanded in place]"
 				}
@@ -151,12 +191,22 @@ func (l *Ledger) MergeViewRun(v *Ledger) (replaced, added int) {
 		if _, ok := mine[k]; ok {
 			continue
 		}
-		if t := theirs[k]; clean(t) {
+		t := theirs[k]
+		if clean(t) {
 			for _, o := range t {
 				o.Detail += " [found on the inlined view only]"
 			}
 			out = append(out, t...)
 			added++
+			continue
+		}
+		// the rule saw nothing of the kind in the functions as written (it is below its floor there)
+		// and finds a violation on the view: that is where the construct lives now
+		if short[k.rule] {
+			for _, o := range t {
+				o.Detail += " [found on the inlined view only]"
+			}
+			out = append(out, t...)
 		}
 	}
 	l.Obs = out
